@@ -125,6 +125,16 @@ pub fn gen_hampel(rng: &mut Rng, tier: &Tier) -> Vec<Case> {
             }
             cases.push(c);
         }
+        // one long run (more samples than a 16-bit counter can count)
+        if t == "f64" {
+            let n = rng.range(2, 6) as usize;
+            let mut c = vec![format!("new 1 hampel N={} thr={} T={}", n, fb(t, 2.0), t), "long 1 1024".to_string()];
+            for _ in 0..crate::gen::LONG_RUN {
+                let x = if rng.chance(1, 9) { rng.range(-400, 400) as f64 } else { rng.range(-4, 4) as f64 };
+                c.push(format!("f 1 {}", fb(t, x)));
+            }
+            cases.push(c);
+        }
         // "any sample differing from a constant window is replaced", however little it differs: a constant window, then
         // one sample a tiny (or a huge) step away
         for _ in 0..tier.n(60, 600) {
@@ -228,6 +238,45 @@ pub fn gen_daub(rng: &mut Rng, tier: &Tier) -> Vec<Case> {
                 cases.push(c);
             }
         }
+    }
+    // any pair of kernels over exact rationals ("for generic kernels, all sample values"): the analysis outputs are the
+    // two convolutions of the input with the configured kernels, the synthesis output is the sum of the two convolutions
+    // of its two inputs — zero coefficients, length 1 and lifecycle steps included
+    for _ in 0..tier.n(80, 800) {
+        let n = rng.range(1, 6) as usize;
+        let kern = |rng: &mut Rng| -> String {
+            (0..n).map(|_| if rng.chance(1, 4) { "0".to_string() } else { crate::gen::rat(rng) }).collect::<Vec<_>>().join(",")
+        };
+        let (lo, hi) = (kern(rng), kern(rng));
+        let mut c = vec![
+            format!("new 1 analyze low={} high={}", lo, hi),
+            format!("new 2 synthesize low={} high={}", lo, hi),
+            "cfg 1".to_string(),
+            "cfg 2".to_string(),
+        ];
+        for i in 0..rng.range(2, 3 * n as i64 + 4) {
+            c.push(format!("f 1 {}", crate::gen::rat(rng)));
+            c.push(format!("f 2 {} {}", crate::gen::rat(rng), crate::gen::rat(rng)));
+            if i == n as i64 && rng.chance(1, 2) {
+                match rng.below(3) {
+                    0 => {
+                        c.push("reset 1".into());
+                        c.push("reset 2".into());
+                    }
+                    1 => {
+                        c.push("clone 1 1".into());
+                        c.push("gutsrt 2 2".into());
+                    }
+                    _ => {
+                        c.push("fresh 1 3".into());
+                        c.push("clonefrom 3 1".into());
+                        c.push("f 3 5".into());
+                    }
+                }
+            }
+        }
+        c.push("cfg 1".into());
+        cases.push(c);
     }
     cases
 }
